@@ -3134,6 +3134,48 @@ psBool_t ciphersuiteAllowedBySecConfig(ssl_t *ssl, const uint16_t id)
         and appropriate for the constraints in 'ssl'.
         If not defined or appropriate, return NULL.
  */
+# ifdef USE_CLIENT_SIDE_SSL
+/*
+    Was the given suite in the cipher_suites list of the ClientHello we
+    sent? A server must select one of the suites the client offered (RFC 5246
+    7.4.1.3, RFC 8446 4.1.3). When the application gave no explicit list,
+    every suite enabled in this build and configuration was offered.
+ */
+psBool_t sslClientOfferedCipherSuite(const ssl_t *ssl, uint16_t id)
+{
+    psBool_t explicitList = PS_FALSE;
+    uint8_t i;
+
+#  ifdef USE_TLS_1_3
+    if (ssl->tls13ClientCipherSuites != NULL
+            && ssl->tls13ClientCipherSuitesLen > 0)
+    {
+        explicitList = PS_TRUE;
+        for (i = 0; i < ssl->tls13ClientCipherSuitesLen; i++)
+        {
+            if (ssl->tls13ClientCipherSuites[i] == id)
+            {
+                return PS_TRUE;
+            }
+        }
+    }
+#  endif
+    if (ssl->tlsClientCipherSuites != NULL
+            && ssl->tlsClientCipherSuitesLen > 0)
+    {
+        explicitList = PS_TRUE;
+        for (i = 0; i < ssl->tlsClientCipherSuitesLen; i++)
+        {
+            if (ssl->tlsClientCipherSuites[i] == id)
+            {
+                return PS_TRUE;
+            }
+        }
+    }
+    return explicitList ? PS_FALSE : PS_TRUE;
+}
+# endif /* USE_CLIENT_SIDE_SSL */
+
 const sslCipherSpec_t *sslGetCipherSpec(const ssl_t *ssl, uint16_t id)
 {
     uint8_t i;
